@@ -67,4 +67,49 @@ MetaBadAt(t, path) ==
             IN IF bad = {} THEN <<>> ELSE MetaBadAt(t.kids[SMin(bad)], path \o "." \o ToString(SMin(bad) - 1))
 
 MetaBad(t, G) == MetaBadAt(t, "r")
+
+-----------------------------------------------------------------------------
+(* Expansion-depthing mode (Grammar(expansion_depthing=True)): every base   *)
+(* value and field-less node counts 1, every abstract layer between the     *)
+(* declared field type and the concrete class of the value adds one, and so *)
+(* does every list.  Defined for fields that are symbols, (refined) base    *)
+(* values, unions, tuples (opaque) and lists.                               *)
+RECURSIVE LevelsUp(_, _, _)
+LevelsUp(G, c, a) == IF c = a \/ ~Known(G, c) \/ Parent(G, c) = "" THEN 0 ELSE 1 + LevelsUp(G, Parent(G, c), a)
+Adj(G, f, c) == IF c.k = "list" THEN 1
+                ELSE IF f.k = "sym" /\ Known(G, f.s) /\ IsAbs(G, f.s) /\ c.k = "node" THEN LevelsUp(G, c.ty, f.s)
+                ELSE 0
+NoForm == [k |-> "none", s |-> "", es |-> <<>>, mh |-> [k |-> "none"]]
+KidForm(G, t, i) == IF t.k = "node" /\ Known(G, t.ty) /\ i \in DOMAIN Fields(G, t.ty) THEN Fields(G, t.ty)[i].f ELSE NoForm
+
+RECURSIVE NodesX(_, _)
+NodesX(G, t) == CASE Internal(t)  -> 1 + SeqSum([i \in DOMAIN t.kids |-> Adj(G, KidForm(G, t, i), t.kids[i]) + NodesX(G, t.kids[i])])
+                  [] t.k = "list" -> SeqSum([i \in DOMAIN t.kids |-> Adj(G, NoForm, t.kids[i]) + NodesX(G, t.kids[i])])
+                  [] OTHER -> 1
+RECURSIVE DistX(_, _)
+UpX(G, f, c) == DistX(G, c) + Adj(G, f, c) + (IF c.k = "list" THEN 0 ELSE 1)
+DistX(G, t) == CASE Internal(t)  -> SMax({1} \cup {UpX(G, KidForm(G, t, i), t.kids[i]) : i \in DOMAIN t.kids})
+                 [] t.k = "list" -> SMax({0} \cup {UpX(G, NoForm, t.kids[i]) : i \in DOMAIN t.kids})
+                 [] OTHER -> 1
+RECURSIVE WeightedX(_, _)
+WeightedX(G, t) == CASE Internal(t)  -> SeqSum([i \in DOMAIN t.kids |-> WeightedX(G, t.kids[i])]) + DistX(G, t)
+                     [] t.k = "list" -> SeqSum([i \in DOMAIN t.kids |-> WeightedX(G, t.kids[i])])
+                     [] OTHER -> 1
+
+RECURSIVE MetaBadXAt(_, _, _)
+MetaBadXAt(G, t, path) ==
+    LET own ==
+          IF t.k \in {"node", "list"} THEN
+             IF ~t.m.has THEN <<"missing", t.k>>
+             ELSE IF t.m.nodes # NodesX(G, t) THEN <<"nodes", t.k>>
+             ELSE IF t.m.dist # DistX(G, t) THEN <<"distance", t.k>>
+             ELSE IF t.m.wn # WeightedX(G, t) THEN <<"weighted", t.k>>
+             ELSE IF RecordedIndex(t.m) # ExpectedIndex(t, path) THEN <<"types-this-way", t.k>>
+             ELSE <<>>
+          ELSE <<>>
+    IN IF own # <<>> THEN own
+       ELSE IF t.k = "tuple" THEN <<>>
+       ELSE LET wrong == {i \in DOMAIN t.kids : MetaBadXAt(G, t.kids[i], path \o "." \o ToString(i - 1)) # <<>>}
+            IN IF wrong = {} THEN <<>> ELSE MetaBadXAt(G, t.kids[SMin(wrong)], path \o "." \o ToString(SMin(wrong) - 1))
+MetaBadX(t, G) == MetaBadXAt(G, t, "r")
 =============================================================================
